@@ -5,7 +5,9 @@ via Point::scale / nested scale / closure) and whose other fields do not mention
 K2 Fragment::scale / FragmentSpan::scale dispatch every variant to its type's scale;
 K3 every Fragment->Node conversion site receives a value scaled on every call path (local slice or a
 call-graph dominator that passes a scaled argument); K4 both canvas results carry settings.scale
-exactly once as a factor; K5 Settings.scale is read nowhere else; K6 default scale 8, cell 1x2.
+exactly once as a factor; K5 Settings.scale is read nowhere else; K6 default scale 8, cell 1x2;
+K7 the code that runs on scaled fragments (Bounds::bounds, which decides class tagging, and the Node
+conversions of the scaled types) takes no cell-unit constant except as a factor of a scaled field.
 Decides the structure (which fields are multiplied, once), not float rounding."""
 import re
 
@@ -222,10 +224,85 @@ def run(run):
     k3(run, sm, frag, fspan)
     # ---------------- K4 / K5 / K6
     k456(run, sm)
+    # ---------------- K7 nothing unscaled after scaling
+    k7(run, sm)
     run.assume("f32 multiplication is exact enough: rounding is not decided")
 
 
 run_flow = run
+
+
+UNIT = r"::cell_grid::CellGrid::\w+$|::cell::Cell::\w+$"
+
+
+def k7(run, sm):
+    """K7: the code that runs on scaled values (Bounds::bounds of the scaled types, which decides which text
+    becomes a class of which shape, and the Node conversions) derives every length from the scaled fields: a
+    cell-unit constant (CellGrid::*, Cell::*) may only appear as a factor of a product with an f32 field of self,
+    which K1 shows to be multiplied by the scale."""
+    prog = run.prog
+    types = [t for t in sm if (prog.adts.get(t) or {}).get("kind") == "Struct" and t != POINT and not t.endswith("FragmentSpan")]
+    roots = []
+    for t in types:
+        tn = re.escape(t)
+        rs = [p for p in prog.bodies if re.search(r"^<%s as svgbob::[\w:]*Bounds>::bounds$" % tn, p)
+              or re.search(r"<impl core::convert::From<%s> for sauron_core::vdom::node::Node<MSG>>::from$" % tn, p)]
+        if len(rs) < 2:
+            run.missing("C11.K7", "Bounds::bounds and Node conversion of %s" % short(t))
+        roots += [(t, r) for r in rs]
+    run.floor("C11.K7", "post_scale_roots", len(roots), 14)
+    seen = set()
+    for t, root in roots:
+        reach = [p for p in set(prog.reachable([root])) | {root} if p in prog.bodies and prog.bodies[p].get("crate") == "svgbob"]
+        hits = 0
+        for p in sorted(reach):
+            b = prog.bodies[p]
+            units = [(bid, c) for bid, c in prog.calls(p) if re.search(UNIT, Program.callee_name(c))]
+            if re.search(UNIT, p):
+                continue  # inside the unit helpers themselves
+            if not units:
+                continue
+            owner = b.get("impl_self") or t
+            adt = prog.adts.get(owner) or {}
+            f32_fields = {f["name"] for v in adt.get("variants", [])[:1] for f in v["fields"] if f["ty"] in LENGTH_SCALAR}
+            ex = Expr(prog, p)
+            rets = ex.returns()
+            for bid, c in units:
+                hits += 1
+                key = (p, Program.callee_name(c))
+                if key in seen:
+                    continue
+                seen.add(key)
+                state = {"scaled": 0, "bare": 0}
+
+                def walk(e, scaled):
+                    e = strip(e)
+                    if not isinstance(e, tuple) or not e:
+                        return
+                    if e[0] == "call" and len(e) > 3 and e[3] == bid and e[1] == Program.callee_name(c):
+                        state["scaled" if scaled else "bare"] += 1
+                        return
+                    if e[0] == "bin" and e[1] == "Mul":
+                        fs = factors(e)
+                        sc = scaled or any(strip(f)[0] == "param" and strip(f)[1] == 1 and len(strip(f)[2]) == 1 and strip(f)[2][0] in f32_fields for f in fs)
+                        for f in fs:
+                            walk(f, sc)
+                        return
+                    for x in e[1:]:
+                        if isinstance(x, tuple):
+                            walk(x, scaled)
+
+                for r in rets:
+                    walk(r, False)
+                inst = "%s uses %s after scaling" % (short(p), short(Program.callee_name(c)))
+                if state["bare"] == 0 and state["scaled"] > 0:
+                    run.ok("C11.K7", inst + ": only as a factor of a scaled field of self", where(c))
+                else:
+                    run.bad("C11.K7", "unscaled-length/%s/%s" % (short(p), short(Program.callee_name(c))), where(c),
+                            "%s (reached from %s, which runs on scaled fragments) takes the cell-unit length %s without multiplying it by a scaled field of self: "
+                            "the result does not scale, so which text fits into which shape (classes, element counts) changes with the scale setting" % (
+                                short(p), short(root), short(Program.callee_name(c))))
+        run.ok("C11.K7", "%s: %d functions reachable, %d cell-unit uses" % (short(root), len(reach), hits), where(prog.bodies[root]), nontrivial=hits > 0)
 
 
 def settings_scale(e):
